@@ -53,6 +53,7 @@ def plan(tier, seed):
     for i in range(2):
         shards.append({'name': 'w5_%d' % i, 'kind': 'w5', 'N': 7 if tier == 'quick' else 10,
                        'n': 24 if tier == 'quick' else 250, 'seed': seed * 1000 + 70 + i})
+    shards.append({'name': 'idkey', 'kind': 'idkey', 'n': 30 if tier == 'quick' else 300, 'seed': seed * 1000 + 75})
     shards.append({'name': 'u64', 'kind': 'u64', 'n': 40 if tier == 'quick' else 400, 'seed': seed * 1000 + 74})
     shards.append({'name': 'ambig', 'kind': 'ambig', 'n': 60 if tier == 'quick' else 800, 'seed': seed * 1000 + 73})
     shards.append({'name': 'large', 'kind': 'large', 'sizes': [1100, 2300] if tier == 'quick' else
@@ -218,6 +219,42 @@ def run_shard(shard, rec):
         rec.sample({'workload': 'NM', 'measure': m, 'threshold': t, 'N': shard['N'],
                     'note': 'per (a,b): one exactly qualifying pair and one pair one token short'},
                    limit=1)
+    elif kind == 'idkey':
+        # the result of an earlier join fed into the next one, keyed by its own '_id' column, with an
+        # empty prefix: the prefixed key would be labelled '_id' like the library's own id column.  The
+        # pinned library refuses (ValueError from DataFrame.insert); refusing is fine, answering with
+        # other keys is not.
+        for i in range(shard['n']):
+            rng = random.Random(shard['seed'] * 100000 + i)
+            case = {'gen': 'idkey', 'seed': shard['seed'] * 100000 + i}
+            words = ['a', 'b', 'c', 'd', 'e']
+            n1, n2 = rng.randint(3, 7), rng.randint(3, 7)
+            L = T.table_spec(['_id', 's'], [[k, ' '.join(rng.sample(words, rng.randint(1, 3)))]
+                                            for k in rng.sample(range(5, 40), n1)], dtypes={'s': 'object'})
+            R = T.table_spec(['rid', 's'], [[k, ' '.join(rng.sample(words, rng.randint(1, 3)))]
+                                            for k in rng.sample(range(100, 140), n2)], dtypes={'s': 'object'})
+            api = rng.choice(['jaccard_join', 'overlap_coefficient_join', 'overlap_join', 'cosine_join'])
+            call = {'api': api, 'ltable': L, 'rtable': R, 'l_key': '_id', 'r_key': 'rid', 'l_attr': 's', 'r_attr': 's',
+                    'tok': {'kind': 'ws', 'return_set': True}, 'threshold': 1 if api == 'overlap_join' else 0.4,
+                    'l_out_prefix': '', 'r_out_prefix': 'r_', 'n_jobs': rng.choice([1, 2]), 'warm': None,
+                    'positional': False}
+            try:
+                df = T.exec_call(ssj, call)
+            except Exception:
+                rec.count('label_collision_refused(not judged)')
+                rec.case(sig=('idkey', case['seed']), nontrivial=False)
+                continue
+            rec.count('label_collision_answered')
+            lk = set(L['data']['_id'])
+            cols = list(df.columns)
+            pos = [k for k, c in enumerate(cols) if c == '_id']
+            keycol = pos[1] if len(pos) > 1 else None
+            got = df.iloc[:, keycol].tolist() if keycol is not None else None
+            if got is None or any(v not in lk for v in got):
+                rec.violation('keys', "%s with l_key_attr='_id' and l_out_prefix='': the call was answered, but the "
+                              'left keys of the result (%r) are not keys of the left table (%r); columns %r'
+                              % (api, (got or df.iloc[:, 0].tolist())[:5], sorted(lk)[:5], cols), case=case)
+            rec.case(sig=('idkey', case['seed']), nontrivial=True)
     elif kind == 'u64':
         for i in range(shard['n']):
             case = {'gen': 'u64', 'seed': shard['seed'] * 100000 + i}
